@@ -72,6 +72,56 @@ pub fn c07_flag_all_waiters_woken_full() {
     });
 }
 
+/// Thorough: five waiters (the fifth distinct registration makes the waker list reallocate),
+/// three free poll slots among waiters 0..=2 (first slot = waiter 0 by symmetry), then waiters 3
+/// and 4 register: 16 schedules.
+fn flag_scenario5(s: [usize; 3]) {
+    let flag = Flag::default();
+    let mut clones = [flag.clone(), flag.clone(), flag.clone(), flag.clone(), flag.clone()];
+    let mut pending = [false; 5];
+    let mut k = 0;
+    while k < 3 {
+        let who = s[k];
+        if who < 3 {
+            let ready = poll_flag(&mut clones[who], W0 + who);
+            assert!(!ready, "C07: flag ready before it was raised");
+            pending[who] = true;
+        }
+        k += 1;
+    }
+    // waiters 3 and 4 always register last, so that up to five distinct wakers are parked
+    let mut j = 3;
+    while j < 5 {
+        let ready = poll_flag(&mut clones[j], W0 + j);
+        assert!(!ready, "C07: flag ready before it was raised");
+        pending[j] = true;
+        j += 1;
+    }
+    kani::cover!(pending[0] && pending[1] && pending[2], "five waiters pending");
+    flag.raise();
+    let mut i = 0;
+    while i < 5 {
+        if pending[i] {
+            assert!(tv::woken(W0 + i), "C07: a waiter of a raised flag was never woken");
+        }
+        assert!(poll_flag(&mut clones[i], W0 + i), "C07: raised flag does not resolve");
+        i += 1;
+    }
+    kani::cover!(true, "schedule ran to its end");
+    std::mem::forget(clones);
+    std::mem::forget(flag);
+}
+
+#[kani::proof]
+#[kani::unwind(7)]
+pub fn c07_flag_five_waiters() {
+    split!(4, |b| {
+        split!(4, |c| {
+            flag_scenario5([0, b, c]);
+        })
+    });
+}
+
 /// Ticket level: waiters 0 and 1 hold clones of ticket A, waiter 2 holds another ticket of the
 /// same job (shares the job-gone flag). Either A's control completes or the job ends.
 fn ticket_scenario(s: [usize; 3], job_ends: bool) {
@@ -150,3 +200,99 @@ ticket_harness!(c07_ticket_other_first_control_done_a, 2, false, 0);
 ticket_harness!(c07_ticket_other_first_control_done_b, 2, false, 1);
 ticket_harness!(c07_ticket_other_first_job_gone_a, 2, true, 0);
 ticket_harness!(c07_ticket_other_first_job_gone_b, 2, true, 1);
+
+/// One task (one waker) awaits two different tickets of the same job, as `join!` does: both are
+/// polled in each round in either order; one control completes first (the task is woken and
+/// re-polls what is still pending), then the other control completes or the job ends. The task
+/// must be woken for the second event too. (Registrations of the same waker on the shared
+/// job-gone flag must not be lost when one of the tickets resolves.)
+fn one_task_two_tickets(a_first: bool, first_done_is_a: bool, then_job_ends: bool) {
+    let gone = Flag::default();
+    let done_a = Flag::default();
+    let done_b = Flag::default();
+    let mut ta = ticket(gone.clone(), done_a.clone());
+    let mut tb = ticket(gone.clone(), done_b.clone());
+    // round 1: both pending
+    let (ra, rb) = if a_first {
+        let ra = tv::poll_with(W0, Pin::new(&mut ta));
+        (ra, tv::poll_with(W0, Pin::new(&mut tb)))
+    } else {
+        let rb = tv::poll_with(W0, Pin::new(&mut tb));
+        (tv::poll_with(W0, Pin::new(&mut ta)), rb)
+    };
+    assert!(ra.is_pending() && rb.is_pending(), "C07: ticket resolved before anything was raised");
+    // first control completes
+    tv::clear_woken(W0);
+    if first_done_is_a { done_a.raise() } else { done_b.raise() }
+    assert!(tv::woken(W0), "C07: task joining two tickets not woken when the first one resolved");
+    // round 2: the task re-polls both (join! polls the unfinished ones; polling a finished ticket
+    // again is also legal for this future)
+    let (ra, rb) = if a_first {
+        let ra = tv::poll_with(W0, Pin::new(&mut ta));
+        (ra, tv::poll_with(W0, Pin::new(&mut tb)))
+    } else {
+        let rb = tv::poll_with(W0, Pin::new(&mut tb));
+        (tv::poll_with(W0, Pin::new(&mut ta)), rb)
+    };
+    assert!(ra.is_ready() == first_done_is_a && rb.is_ready() != first_done_is_a, "C07: wrong ticket resolved");
+    // second event
+    tv::clear_woken(W0);
+    if then_job_ends {
+        gone.raise();
+    } else if first_done_is_a {
+        done_b.raise();
+    } else {
+        done_a.raise();
+    }
+    kani::cover!(then_job_ends, "job ends while one of the two tickets is outstanding");
+    assert!(tv::woken(W0), "C07: task joining two tickets never woken for the outstanding one");
+    assert!(tv::poll_with(W0, Pin::new(&mut ta)).is_ready() && tv::poll_with(W0, Pin::new(&mut tb)).is_ready(), "C07: outstanding ticket still pending");
+    kani::cover!(true, "schedule ran to its end");
+    std::mem::forget((ta, tb, gone, done_a, done_b));
+}
+
+#[kani::proof]
+#[kani::unwind(6)]
+pub fn c07_ticket_one_task_two_tickets() {
+    split!(2, |o| {
+        split!(2, |f| {
+            split!(2, |j| {
+                one_task_two_tickets(o == 1, f == 1, j == 1);
+            })
+        })
+    });
+}
+
+/// Waker replacement: the same ticket value is polled while pending under one waker and later
+/// under another (a future moved between tasks, or polled inside `select!` and then awaited):
+/// the most recent waker must be woken when the ticket resolves.
+fn waker_replacement(job_ends: bool, third_poll_back: bool) {
+    let gone = Flag::default();
+    let done = Flag::default();
+    let mut t = ticket(gone.clone(), done.clone());
+    assert!(tv::poll_with(W0, Pin::new(&mut t)).is_pending(), "C07: ticket resolved before anything was raised");
+    assert!(tv::poll_with(W0 + 1, Pin::new(&mut t)).is_pending(), "C07: ticket resolved before anything was raised");
+    let last = if third_poll_back {
+        assert!(tv::poll_with(W0, Pin::new(&mut t)).is_pending(), "C07: ticket resolved before anything was raised");
+        W0
+    } else {
+        W0 + 1
+    };
+    tv::clear_woken(W0);
+    tv::clear_woken(W0 + 1);
+    if job_ends { gone.raise() } else { done.raise() }
+    assert!(tv::woken(last), "C07: the task now holding the ticket (latest waker) was never woken");
+    assert!(tv::poll_with(last, Pin::new(&mut t)).is_ready(), "C07: resolved ticket still pending");
+    kani::cover!(true, "schedule ran to its end");
+    std::mem::forget((t, gone, done));
+}
+
+#[kani::proof]
+#[kani::unwind(6)]
+pub fn c07_ticket_waker_replacement() {
+    split!(2, |j| {
+        split!(2, |b| {
+            waker_replacement(j == 1, b == 1);
+        })
+    });
+}
